@@ -228,7 +228,16 @@ mutual
       | .arr xs => (setEach fuel r xs v).map .arr
       | .obj kvs => (setEach fuel r (kvs.map (·.2)) v).map fun vs => .obj ((kvs.map (·.1)).zip vs)
       | _ => some j
-    | _ + 1, .descent :: _, _, _ => none     -- redact never calls Set with a descent
+    | fuel + 1, .descent :: r, j, v =>
+      -- ojg sets below every node: descendants first, then the node itself; an object that
+      -- lacks the member gets it (this is why redact avoids Set for paths that *start* with `..`)
+      let j' : Json := match j with
+        | .arr xs => .arr (setDesc fuel r xs v)
+        | .obj kvs => .obj ((kvs.map (·.1)).zip (setDesc fuel r (kvs.map (·.2)) v))
+        | x => x
+      match set fuel r j' v with
+      | some j'' => some j''
+      | none => some j'
   def setEach : Nat → Path → List Json → Json → Option (List Json)
     | 0, _, _, _ => none
     | _ + 1, _, [], _ => some []
@@ -237,6 +246,13 @@ mutual
       | some nx, some nxs => some (nx :: nxs)
       | none, some nxs => some (x :: nxs)      -- an element the rest of the path cannot enter is left alone
       | _, none => none
+  def setDesc : Nat → Path → List Json → Json → List Json
+    | 0, _, xs, _ => xs
+    | _ + 1, _, [], _ => []
+    | fuel + 1, r, x :: xs, v =>
+      (match set fuel (.descent :: r) x v with
+       | some nx => nx
+       | none => x) :: setDesc fuel r xs v
 end
 
 def setAt (p : Path) (j v : Json) : Option Json := set (3 * (p.length + size j) + 8) p j v
